@@ -110,8 +110,10 @@ Stop(c) == /\ cons' = [cons EXCEPT ![c].on = FALSE]
 
 (* The broker hands message i to consumer c (possibly ahead of the client's consume(): prefetch). *)
 (* C14: only a message that is waiting, i.e. held by nobody.  C05/C12/C15 guards by category.     *)
+(* (a broker without server-side topic filtering may let a consumer prefetch a message of a topic it does not serve;  *)
+(*  it must then give it back: only matching messages are ever handed to the client, see Deliver)                      *)
 TakeGuard(c, i, chk) ==
-    /\ cons[c].on /\ Live(i) /\ Matches(c, i) /\ holder[i] = NoC
+    /\ cons[c].on /\ Live(i) /\ cons[c].q = meta[i].q /\ holder[i] = NoC
     /\ CASE cons[c].cat = "n" -> /\ (loc[i] = U("n") \/ loc[i] = U("d"))
                                  /\ ("early" \in chk /\ loc[i] = U("d")) => (meta[i].due # NoTime /\ meta[i].due <= now)
                                  /\ "fifo" \in chk => FifoOk(c, i)
@@ -129,6 +131,7 @@ Take(c, i, chk) ==
 (* consume() of consumer c returns message i to the client: only the holder, only once per take. *)
 Deliver(c, i, chk) ==
     /\ "holder" \in chk => (Held(c, i) /\ ~deliv[i])
+    /\ Matches(c, i)
     /\ ("ttl" \in chk /\ cons[c].cat = "n") => ~Overdue(i)       \* C12: never handed over once expired
     /\ deliv' = [deliv EXCEPT ![i] = TRUE]
     /\ UNCHANGED <<now, st, loc, meta, holder, origin, ret, cons, norder, transit, pend>>
